@@ -366,7 +366,7 @@ func c10(c *core.Ctx, r *core.Report) {
 						ia, isIA := src.V.(*ssa.IndexAddr)
 						okAll := isIA && isCounter(ia.Index)
 						if okAll {
-							_, okAll = upperGuard(ia.Block(), ia.Index, ia.X, func(a, b ssa.Value) bool { return a == b })
+							_, okAll = forwardBound(ia.Block(), ia.Index, ia.X, func(a, b ssa.Value) bool { return a == b })
 						}
 						for _, sfx := range suffixes {
 							r.Check(okAll, key+"#all-stages"+sfx, an.Pos(c, init), "every stage of the list is chained exactly once, in list order", "the stage being chained is "+an.D().Of(src.V)+", not the element of a single forward pass over the stages given")
@@ -532,7 +532,7 @@ func c10(c *core.Ctx, r *core.Report) {
 								down := sw.first.eq(aff{1, 0, -1, true}) && sw.perIter == -1 && sw.guardNorm.eq(sw.idx)
 								covers = up || down
 							} else if isCounter(an.Strip(ia.Index)) {
-								_, covers = upperGuard(bo.Block(), an.Strip(ia.Index), ia.X, func(a, b ssa.Value) bool { return an.Strip(a) == an.Strip(b) })
+								_, covers = forwardBound(bo.Block(), an.Strip(ia.Index), ia.X, func(a, b ssa.Value) bool { return an.Strip(a) == an.Strip(b) })
 							}
 						}
 					}
